@@ -2,14 +2,14 @@
 import re
 
 from . import absint as A
-from .lib import borrow_root, callers, closure_args_of_call, operand_local, result_split, try_edges
+from .lib import PLUMBING, borrow_root, callee_allow, callers, closure_args_of_call, operand_local, result_split, try_edges
 from .lib_c01 import (VALUE_PRESERVING, access_path, always_err_try_edges, bool_switch_of_call, conflict_loop, const_reach, dead_ends, edge_is_rejecting,
                       enum_switches, ok_return_blocks, option_edges, outermost_fn, resolve_path, sources, Renamed, PRE_FIX_F3_EDITS)
 
 LEVEL = "other"
 TECHNIQUE = ("static analysis: dominance of router.insert by the three validations' Continue edges, decision tables read off the MIR switches of HttpRouter::insert "
              "(segment kind x existing edge kind), ADT shape facts, exhaustive interpretation of validate_tags over its finite input shapes, guard/propagation tables of the parameter validators, "
-             "and (re-evaluated from C05) the exact overlap table")
+             "path facts on the single-alternative length test and value-source census of the subschema scalar check, and (re-evaluated from C05) the exact overlap table")
 LEVEL_TEXT = ("Decides on every path of the type-checked MIR of the current tree: (R1) the only caller of HttpRouter::insert is _register, which reaches it only through the Continue edges of "
               "validate_tags?, validate_path_parameters?, validate_named_parameters? applied to the same endpoint, and register propagates its Err; (R2) the 3x3 table "
               "segment kind x existing edge kind = same kind descends / other kinds panic, differently named variable at the same position panics, a repeated variable name panics "
@@ -17,14 +17,16 @@ LEVEL_TEXT = ("Decides on every path of the type-checked MIR of the current tree
               "and one handler list per method, so mixed kinds / two names per position are unrepresentable, and edges are only created by insert; (R4) the per-method loop panics iff "
               "overlaps_with(existing, new) is true for some existing element and otherwise appends, and (R4E2) overlaps_with equals 'some version in both' on all order types; "
               "(R5) path-variable set != path-parameter set -> Err, a query name that is a path variable -> Err, Path+Segment -> type_is_scalar?, Path+Wildcard -> type_is_string_enum?, "
-              "Query -> type_is_scalar?, each on the parameter's own name and schema; (R6) validate_tags returns exactly the specified verdict for every visible x policy x tag-count x "
+              "Query -> type_is_scalar?, each on the parameter's own name and schema; (R5b) type_is_scalar_subschemas answers true only where justified - allOf/anyOf only where the list was found to hold exactly one element, which passed type_is_scalar_common; "
+              "oneOf only when every element passed; each only for the exact shape (all other subschema fields None), with dependencies and the type predicate handed on unchanged; "
+              "(R6) validate_tags returns exactly the specified verdict for every visible x policy x tag-count x "
               "allow_other_tags x membership shape. Not decided: the global converse (every accepted table is unambiguous and every endpoint reachable) as one theorem over all "
-              "registration sequences - the rules check its premises, not the induction; type_is_scalar / type_is_string_enum over all schemas (schemars level).")
+              "registration sequences - the rules check its premises, not the induction; type_is_scalar / type_is_string_enum over all schemas (schemars level) beyond the subschema clause R5b.")
 LEVEL_NOTE = ("Trusts rustc MIR construction, the extractor, engine dominators/slices, rules/absint.py, std collections (BTreeMap::entry/get_or_insert, BTreeSet::contains/insert, HashSet equality, "
               "HashMap::contains_key) and panics as refusal. R4E2 re-runs rule C05.E2 of rules/c05.py (exhaustive interpretation of overlaps_with over all weak orders) under this property's id; "
               "it assumes semver::Version's order is total and unbounded below.")
 EXPLANATION = ("Rules over the MIR of api_description::ApiDescription::{register, register::_register, validate_tags, validate_path_parameters, validate_named_parameters} and "
-               "router::{HttpRouter::insert, insert_var} extracted from the current tree: PASS/DOM on the pruned CFG, TABLE extraction from discriminant switches with access-path provenance of "
+               "router::{HttpRouter::insert, insert_var} and type_util::type_is_scalar_subschemas extracted from the current tree: PASS/DOM on the pruned CFG, TABLE extraction from discriminant switches with access-path provenance of "
                "the compared operands, SHAPE facts from the ADT tables, DECIDE by abstract interpretation for validate_tags (all finite input shapes, tag counts 0..3) and for overlaps_with "
                "(all weak orders). The rules are written over roles, not spellings: a validation's result may be split by `?`, match or if-let (and the three calls may sit in an inlined private helper - "
                "feasibility of paths is then decided with the variant of the returned Result propagated); the overlap test may be a loop or an iter().find/position/any search over the list that is pushed to; "
@@ -699,6 +701,242 @@ def r5_parameter_rules(ctx):
     ctx.check(R, "vnp:Ok-only-after-all-parameters", bool(oks) and all(vnp.edge_dominates(nsw, n_none, b) for b in oks), "Ok(()) is dominated by the None edge of the parameter iterator", vnp)
 
 
+# --------------------------------------------------------------------------- R5b
+SUBS_ELEMENT_ACCESS = [r"slice::<impl \[T\]>::(first|last|get|iter|as_ptr|len)$", r"vec::Vec::<T, A>::(as_slice|iter|len|first)$", r"Option::<T>::(unwrap|expect|unwrap_unchecked)$",
+                       r"ops::Index::index$", r"iter::Iterator::next$", r"iter::IntoIterator::into_iter$"]
+
+
+def _option_field_edges(fs, sub_param, field):
+    """Edges of fs on which `subschemas.<field>` is known None / known Some: ([none edges], [some edges]) from discriminant
+    switches on that place (patterns, match, if-let) and from is_none() / is_some() tests."""
+    none_e, some_e = [], []
+    for sbb, info, tg in enum_switches(fs, r"^std::option::Option$"):
+        p = access_path(fs, info["place"], VP)
+        if p.kind() == "param" and p.root[1] == sub_param and p.path == [field] and not [c for c in p.call_names() if not re.search(r"as_ref$|as_deref$|Deref::deref$", c)]:
+            if tg.get("None") is not None and tg.get("Some") is not None and tg["None"] != tg["Some"]:
+                none_e.append((sbb, tg["None"]))
+                some_e.append((sbb, tg["Some"]))
+    for cbb, ct in fs.live_calls(r"Option::<T>::(is_some|is_none)$"):
+        p = access_path(fs, ct["args"][0], VP)
+        if p.kind() == "param" and p.root[1] == sub_param and p.path == [field]:
+            sw = bool_switch_of_call(fs, cbb, ct)
+            if sw:
+                some_t, none_t = (sw[1], sw[2]) if ct["callee"].endswith("is_some") else (sw[2], sw[1])
+                none_e.append((sw[0], none_t))
+                some_e.append((sw[0], some_t))
+    return none_e, some_e
+
+
+def _shape_guard(fs, sub_param, fields, site, some_of, none_of):
+    """Every path to `site` established Some for one of the fields `some_of` (and None for the others of that group) and None for all of `none_of`."""
+    bad = []
+    for f in none_of:
+        ne, se = _option_field_edges(fs, sub_param, f)
+        if not ne or site in fs.reachable(0, avoid_edges=ne):
+            bad.append("%s may be Some" % f)
+    some_edges = []
+    for f in some_of:
+        some_edges += _option_field_edges(fs, sub_param, f)[1]
+    if not some_edges or site in fs.reachable(0, avoid_edges=some_edges):
+        bad.append("none of %s need be Some" % "/".join(some_of))
+    if len(some_of) > 1:
+        none_edges = []
+        for f in some_of:
+            none_edges += _option_field_edges(fs, sub_param, f)[0]
+        if not none_edges or site in fs.reachable(0, avoid_edges=none_edges):
+            bad.append("%s may all be Some" % "/".join(some_of))
+    return bad
+
+
+def _passes_checker_args(ds, g, fs, t, dep_param, tc_param):
+    """The recursive call hands on the caller's `dependencies` and `type_check` unchanged (a different type_check would accept other types)."""
+    ok = True
+    for idx, want in ((3, dep_param), (4, tc_param)):
+        h, p = resolve_path(ds, g, t["args"][idx], VP)
+        ok = ok and h is fs and p.kind() == "param" and p.root[1] == want and not p.path and not [c for c in p.call_names() if not re.search(r"Deref::deref$|Clone::clone$", c)]
+    return ok
+
+
+def r5b_scalar_check_is_total(ctx):
+    R = ctx.rule("C02.R5b", "type_is_scalar_subschemas answers true only when justified: allOf/anyOf - only where the list was found to have exactly one element (len == 1 on every path) and "
+                 "that element passed type_is_scalar_common; oneOf - only when EVERY element passed it (Iterator::all / a loop that returns false at the first failure; not any, not first); "
+                 "each only for the exact shape (the other subschema fields None); every other shape answers false", floor=7)
+    fs = ctx.need_fn(ctx.ds, R, r"^type_util::type_is_scalar_subschemas$")
+    sub_param = [i for i in range(1, fs.argc + 1) if "SubschemaValidation" in fs.local_ty(i)]
+    dep_param = [i for i in range(1, fs.argc + 1) if "IndexMap<" in fs.local_ty(i)]
+    tc_param = [i for i in range(1, fs.argc + 1) if "InstanceType) -> bool" in fs.local_ty(i)]
+    fields = [f["name"] for f in (ctx.ds.adt_fields("schemars::schema::SubschemaValidation") or [])]
+    if len(sub_param) != 1 or len(dep_param) != 1 or len(tc_param) != 1 or not {"all_of", "any_of", "one_of"} <= set(fields):
+        ctx.lost(R, "parameters (subschemas, dependencies, type_check) of type_is_scalar_subschemas / fields of SubschemaValidation")
+        return
+    sub_param, dep_param, tc_param = sub_param[0], dep_param[0], tc_param[0]
+    others = [f for f in fields if f not in ("all_of", "any_of", "one_of")]
+    rec_rx = r"^type_util::type_is_scalar_common$"
+    # ---- the recursion sites
+    sites = [(fs, bb, t) for bb, t in fs.live_calls(rec_rx)]
+    for h in ctx.ds.descendants(fs):
+        sites += [(h, bb, t) for bb, t in h.live_calls(rec_rx)]
+    justified = {}          # id(call term in fs whose success justifies `true`) -> description
+    classified = set()
+
+    def list_of(g, op):
+        """Which subschema list (field name) does an operand of fs derive from - through element access only?"""
+        sl = fs.slice(op)
+        got = [f for f in ("all_of", "any_of", "one_of") if sl.reads_field(f)]
+        bad = callee_allow(sl, PLUMBING + SUBS_ELEMENT_ACCESS)
+        return got, sl, [b[0] for b in bad]
+
+    # (a) direct recursion on the single element of allOf / anyOf
+    for g, bb, t in sites:
+        if g is not fs:
+            continue
+        got, sl, bad = list_of(fs, t["args"][2])
+        pe = access_path(fs, t["args"][2], VP + [r"Option::<T>::(unwrap|expect)$"])
+        in_loop = pe.is_call(r"iter::Iterator::next$")
+        if in_loop or not got or not set(got) <= {"all_of", "any_of"}:
+            continue
+        classified.add(id(t))
+        # len == 1 established on every path: comparisons of the list's length with 1 (==, !=, through flags, &&, early returns), or a `match len { 1 => .. }`
+        at, af = [], []
+        for cb, i, st in fs.stmts():
+            rv = st["rv"]
+            if rv["rv"] == "binop" and rv["op"] in ("Eq", "Ne"):
+                for x, y in ((rv["a"], rv["b"]), (rv["b"], rv["a"])):
+                    yc = access_path(fs, y, [])        # the constant, possibly through a temporary (`[only]` pattern: Eq(len, move _tmp) with _tmp = 1_usize)
+                    yv = y if y.get("k") == "const" else (yc.root[2] if yc.kind() == "const" and not yc.path else {})
+                    if (yv.get("val") or {}).get("int") == 1 and x.get("k") in ("copy", "move"):
+                        xs = fs.slice(x)
+                        if (xs.reads_field("all_of") or xs.reads_field("any_of")) and not callee_allow(xs, PLUMBING + [r"::len$", r"vec::Vec::<T, A>::as_slice$"]):
+                            (at if rv["op"] == "Eq" else af).append(("cmp", cb, i))
+        okl = bool(at or af) and fs.guarded_by(bb, atoms_true=at, atoms_false=af)[0]
+        if not okl:
+            one_edges = []
+            for sbb, st in fs.switches():
+                q = access_path(fs, st["discr"], VP) if st["discr"].get("k") in ("copy", "move") else None
+                if q is not None and q.is_call(r"::len$") and not q.path:
+                    qs = fs.slice(q.call()[2]["args"][0])
+                    if (qs.reads_field("all_of") or qs.reads_field("any_of")) and fs.switch_target(sbb, 1) != st["otherwise"]:
+                        one_edges.append((sbb, fs.switch_target(sbb, 1)))
+            okl = bool(one_edges) and bb not in fs.reachable(0, avoid_edges=one_edges)
+        ctx.check(R, "allOf/anyOf:recursion-only-for-a-single-alternative", okl,
+                  "the recursive check of an allOf/anyOf element is reached only where the list's length was found to be exactly 1 (%d length tests): %s - otherwise only the inspected "
+                  "element is known to be scalar" % (len(at) + len(af), okl), (fs, bb))
+        ctx.check(R, "allOf/anyOf:recurses-on-that-alternative", not bad and _passes_checker_args(ctx.ds, fs, fs, t, dep_param, tc_param),
+                  "schema argument derives from subschemas.%s by element access only (other callees: %s); dependencies and type_check are handed on unchanged" % ("/".join(got), bad), (fs, bb))
+        sg = _shape_guard(fs, sub_param, fields, bb, ["all_of", "any_of"], ["one_of"] + others)
+        ctx.check(R, "allOf/anyOf:only-for-the-exact-shape", not sg, "on every path to the recursion exactly one of all_of / any_of is Some and every other subschema field is None%s"
+                  % ("" if not sg else " - NOT established: " + "; ".join(sg)), (fs, bb))
+        justified[id(t)] = ("call", t, bb)
+    # (b) oneOf: every element checked
+    b_sites = []
+    for abb, at_ in fs.live_calls(r"iter::Iterator::all$"):
+        got, sl, bad = list_of(fs, at_["args"][0])
+        cls = closure_args_of_call(fs, at_)
+        if got != ["one_of"] or len(cls) != 1:
+            continue
+        h = cls[0][0]
+        pit = access_path(fs, at_["args"][0], VP + [r"slice::<impl \[T\]>::iter$", r"vec::Vec::<T, A>::iter$", r"iter::IntoIterator::into_iter$", r"iter::Iterator::by_ref$"])
+        whole = pit.kind() == "param" and pit.root[1] == sub_param and pit.npath() == ["one_of", "+", "0"]
+        inner = [(bb, t) for bb, t in h.live_calls(rec_rx)]
+        okc = False
+        d = "the closure handed to all() does not consist of one recursive check"
+        if len(inner) == 1:
+            ibb, it_ = inner[0]
+            classified.add(id(it_))
+            item = access_path(h, it_["args"][2], VP)
+            rets = sources(h, {"l": 0, "p": []}, VP)
+            sp = result_split(h, it_["dest"]["l"])
+            ok_ret = True
+            for p in rets:
+                if p.is_call(r"Result::<T, E>::is_ok$") and not p.path and access_path(h, p.call()[2]["args"][0], VP).call() is not None and \
+                        access_path(h, p.call()[2]["args"][0], VP).call()[2] is it_:
+                    continue
+                if p.kind() == "const" and (p.root[2].get("val") or {}).get("int") == 0:
+                    continue
+                if p.kind() == "const" and (p.root[2].get("val") or {}).get("int") == 1 and sp is not None and p.hops and \
+                        any(h.edge_dominates(sp["switch_bb"], sp["ok"], hb) for _l, hb in p.hops):
+                    continue
+                ok_ret = False
+            okc = item.kind() == "param" and item.root[1] == 2 and not item.path and ok_ret and _passes_checker_args(ctx.ds, h, fs, it_, dep_param, tc_param)
+            d = "all(|s| type_is_scalar_common(.., s, dependencies, type_check) succeeded): item is the closure's element: %s; the closure is true only on success: %s" % (
+                item.kind() == "param" and item.root[1] == 2, ok_ret)
+        ctx.check(R, "oneOf:every-alternative-checked", whole and not bad and okc, "Iterator::all over %r (whole list: %s; other callees: %s); %s" % (pit, whole, bad, d), (fs, abb))
+        sg = _shape_guard(fs, sub_param, fields, abb, ["one_of"], ["all_of", "any_of"] + others)
+        ctx.check(R, "oneOf:only-for-the-exact-shape", not sg, "on every path to the oneOf check one_of is Some and every other subschema field is None%s"
+                  % ("" if not sg else " - NOT established: " + "; ".join(sg)), (fs, abb))
+        justified[id(at_)] = ("all", at_, abb)
+        b_sites.append(abb)
+    # (b') the same as an explicit loop: for s in one_of { if check(s) failed { return false } } true
+    loop_true_ok = []
+    for g, bb, t in sites:
+        if g is not fs or id(t) in classified:
+            continue
+        pe = access_path(fs, t["args"][2], VP)
+        if not (pe.is_call(r"iter::Iterator::next$") and pe.npath() == ["+", "0"]):
+            continue
+        nbb, nt = pe.call()[1], pe.call()[2]
+        got, sl, bad = list_of(fs, nt["args"][0])
+        pit = access_path(fs, nt["args"][0], VP + [r"slice::<impl \[T\]>::iter$", r"vec::Vec::<T, A>::iter$", r"iter::IntoIterator::into_iter$", r"iter::Iterator::by_ref$"])
+        whole = got == ["one_of"] and pit.kind() == "param" and pit.root[1] == sub_param and pit.npath() == ["one_of", "+", "0"]
+        ne = option_edges(fs, nt["dest"]["l"])
+        classified.add(id(t))
+        okloop = False
+        if ne is not None and whole:
+            nsw, n_some, n_none = ne
+            fail_edges = []
+            sp = result_split(fs, t["dest"]["l"])
+            if sp is not None:
+                fail_edges.append(sp["err"])
+            for cbb, ct in fs.live_calls(r"Result::<T, E>::(is_ok|is_err)$"):
+                q = access_path(fs, ct["args"][0], VP)
+                if q.call() is not None and q.call()[2] is t:
+                    sw = bool_switch_of_call(fs, cbb, ct)
+                    if sw:
+                        fail_edges.append(sw[2] if ct["callee"].endswith("is_ok") else sw[1])
+            noskip = nbb not in fs.reachable(n_some, avoid=[bb])
+            fails_stop = bool(fail_edges) and all(nbb not in fs.reachable(fe) for fe in fail_edges)
+            okloop = noskip and fails_stop
+            if okloop:
+                loop_true_ok.append((nsw, n_none, fail_edges))
+        ctx.check(R, "oneOf:every-alternative-checked", okloop and not bad and _passes_checker_args(ctx.ds, fs, fs, t, dep_param, tc_param),
+                  "explicit loop over %r: every element reaches the check and a failed check leaves the loop: %s" % (pit, okloop), (fs, bb))
+        sg = _shape_guard(fs, sub_param, fields, bb, ["one_of"], ["all_of", "any_of"] + others)
+        ctx.check(R, "oneOf:only-for-the-exact-shape", not sg, "on every path to the oneOf check one_of is Some and every other subschema field is None%s"
+                  % ("" if not sg else " - NOT established: " + "; ".join(sg)), (fs, bb))
+    stray = [(g.id, bb) for g, bb, t in sites if id(t) not in classified]
+    ctx.check(R, "recursion-sites-census", not stray and bool(sites), "type_is_scalar_common is applied to subschema elements at %d site(s); not recognised as the single allOf/anyOf element or as one of "
+              "all oneOf elements: %s" % (len(sites), [s_[0].split("::")[-1] for s_ in stray] or "none"), fs)
+    # ---- what the function can return
+    bad_ret = []
+    kinds = []
+    for p in sources(fs, {"l": 0, "p": []}, VP):
+        if p.kind() == "const" and (p.root[2].get("val") or {}).get("int") == 0:
+            kinds.append("false")
+            continue
+        if p.is_call(r"Result::<T, E>::is_ok$") and not p.path:
+            q = access_path(fs, p.call()[2]["args"][0], VP)
+            if q.call() is not None and id(q.call()[2]) in justified and not q.path:
+                kinds.append("is_ok(check of the single allOf/anyOf element)")
+                continue
+        if p.call() is not None and id(p.call()[2]) in justified and justified[id(p.call()[2])][0] == "all" and not p.path:
+            kinds.append("all(oneOf elements pass)")
+            continue
+        if p.kind() == "const" and (p.root[2].get("val") or {}).get("int") == 1 and p.hops:
+            okt = False
+            for key, (kind, t, tb) in justified.items():
+                sp = result_split(fs, t["dest"]["l"]) if kind == "call" else None
+                if sp is not None and any(fs.edge_dominates(sp["switch_bb"], sp["ok"], hb) for _l, hb in p.hops):
+                    okt = True
+            for nsw, n_none, fail_edges in loop_true_ok:
+                if any(fs.edge_dominates(nsw, n_none, hb) and not any(hb in fs.reachable(fe) for fe in fail_edges) for _l, hb in p.hops):
+                    okt = True
+            if okt:
+                kinds.append("true (after a successful check)")
+                continue
+        bad_ret.append(repr(p))
+    ctx.check(R, "true-only-when-justified", not bad_ret, "values the function can return: %s; not justified by a recognised check: %s" % (sorted(set(kinds)), bad_ret or "none"), fs)
+
+
 # --------------------------------------------------------------------------- R6
 def _tags_spec(visible, policy, tags, allow_other, known):
     if not visible:
@@ -896,10 +1134,11 @@ def r6_tag_policy(ctx):
 
 
 RULES = [("C02.R1", r1_validation_before_insert), ("C02.R2", r2_conflict_table), ("C02.R3", r3_shape), ("C02.R4", r4_version_conflicts), ("C02.R4E2", r4e2_overlap_table),
-         ("C02.R5", r5_parameter_rules), ("C02.R6", r6_tag_policy)]
+         ("C02.R5", r5_parameter_rules), ("C02.R5b", r5b_scalar_check_is_total), ("C02.R6", r6_tag_policy)]
 
 RT = "dropshot/src/router.rs"
 AD = "dropshot/src/api_description.rs"
+TU = "dropshot/src/type_util.rs"
 
 _VARREST_PANIC_ARM = ('                        HttpRouterEdges::VariableRest(varname, _) => panic!(\n'
                       '                            "URI path \\"{}\\": attempted to register route for \\\n'
@@ -980,6 +1219,24 @@ SELFTEST = [
     {"name": 'kind-map-loop-swaps-kinds', "kind": "mutant", "expect": ['C02.R5'],
      "edits": [(AD, '        let path_segments = route_path_to_segments(&e.path)\n            .iter()\n            .filter_map(|segment| {\n                let seg = PathSegment::from(segment);\n                match seg {\n                    PathSegment::VarnameSegment(v) => {\n                        Some((v, SegmentOrWildcard::Segment))\n                    }\n                    PathSegment::VarnameWildcard(v) => {\n                        Some((v, SegmentOrWildcard::Wildcard))\n                    }\n                    PathSegment::Literal(_) => None,\n                }\n            })\n            .collect::<BTreeMap<_, _>>();\n', '        let mut path_segments = BTreeMap::new();\n        for segment in route_path_to_segments(&e.path).iter() {\n            match PathSegment::from(segment) {\n                PathSegment::VarnameSegment(v) => {\n                    path_segments.insert(v, SegmentOrWildcard::Wildcard);\n                }\n                PathSegment::VarnameWildcard(v) => {\n                    path_segments.insert(v, SegmentOrWildcard::Segment);\n                }\n                PathSegment::Literal(_) => {}\n            }\n        }\n')],
      "why": 'the name -> kind map is built by a loop that records Segment for wildcards and Wildcard for segments'},
+    {"name": 'scalar-check-first-alternative-only', "kind": "mutant", "expect": ['C02.R5b'],
+     "edits": [(TU, '        } if subs.len() == 1 => type_is_scalar_common(\n            operation_id,\n            name,\n            subs.first().unwrap(),\n            dependencies,\n            type_check,\n        )\n        .is_ok(),\n', '        } => subs.first().is_some_and(|sub| {\n            type_is_scalar_common(operation_id, name, sub, dependencies, type_check).is_ok()\n        }),\n')],
+     "why": 'adversary round 2 (C02-C): `if subs.len() == 1 => check(subs.first().unwrap())` tidied into `subs.first().is_some_and(|s| check(s))`: only the first allOf/anyOf alternative is checked, so anyOf[scalar, array] passes as scalar'},
+    {"name": 'scalar-check-oneof-any', "kind": "mutant", "expect": ['C02.R5b'],
+     "edits": [(TU, '        } => subs.iter().all(|schema| {', '        } => subs.iter().any(|schema| {')],
+     "why": 'a oneOf schema passes as scalar as soon as ONE alternative is scalar'},
+    {"name": 'scalar-check-len-at-least-one', "kind": "mutant", "expect": ['C02.R5b'],
+     "edits": [(TU, '        } if subs.len() == 1 => type_is_scalar_common(', '        } if subs.len() >= 1 => type_is_scalar_common(')],
+     "why": 'the single-alternative requirement weakened to `len >= 1`: further alternatives are never looked at'},
+    {"name": 'scalar-check-ignores-not-field', "kind": "mutant", "expect": ['C02.R5b'],
+     "edits": [(TU, '            all_of: Some(subs),\n            any_of: None,\n            one_of: None,\n            not: None,', '            all_of: Some(subs),\n            any_of: None,\n            one_of: None,\n            not: _,')],
+     "why": 'an allOf schema that also carries a `not` subschema is treated like a plain allOf'},
+    {"name": 'scalar-check-oneof-loop-skips-failures', "kind": "mutant", "expect": ['C02.R5b'],
+     "edits": [(TU, '        } => subs.iter().all(|schema| {\n            type_is_scalar_common(\n                operation_id,\n                name,\n                schema,\n                dependencies,\n                type_check,\n            )\n            .is_ok()\n        }),\n', '        } => {\n            let mut seen_scalar = false;\n            for schema in subs {\n                if type_is_scalar_common(operation_id, name, schema, dependencies, type_check).is_err() {\n                    continue;\n                }\n                seen_scalar = true;\n            }\n            seen_scalar\n        }\n')],
+     "why": 'oneOf written as a loop that skips failing alternatives and answers true if any passed'},
+    {"name": 'scalar-check-other-type-predicate', "kind": "mutant", "expect": ['C02.R5b'],
+     "edits": [(TU, '                schema,\n                dependencies,\n                type_check,\n            )\n            .is_ok()\n        }),', '                schema,\n                dependencies,\n                |_| true,\n            )\n            .is_ok()\n        }),')],
+     "why": 'the recursive check of oneOf alternatives uses a predicate that accepts every instance type'},
     # ---------------------------------------------------------------- benign variants
     {"name": "benign-negated-equality", "kind": "benign",
      "edits": [(RT, "if *new_varname != *varname {\n                                // Don't allow people", "if !(*new_varname == *varname) {\n                                // Don't allow people")],
@@ -1038,6 +1295,18 @@ SELFTEST = [
     {"name": 'benign-type-check-error-by-if-let', "kind": "benign",
      "edits": [(AD, '                    type_is_scalar(\n                        &e.operation_id,\n                        name,\n                        schema,\n                        dependencies,\n                    )?;\n                }\n                _ => (),', '                    if let Err(message) = type_is_scalar(\n                        &e.operation_id,\n                        name,\n                        schema,\n                        dependencies,\n                    ) {\n                        return Err(message);\n                    }\n                }\n                _ => (),')],
      "why": 'behaviour-preserving: `type_is_scalar(..)?` written as if let Err(m) = .. { return Err(m) }'},
+    {"name": 'benign-single-alternative-early-return', "kind": "benign",
+     "edits": [(TU, '        } if subs.len() == 1 => type_is_scalar_common(\n            operation_id,\n            name,\n            subs.first().unwrap(),\n            dependencies,\n            type_check,\n        )\n        .is_ok(),\n', '        } => {\n            if subs.len() != 1 {\n                return false;\n            }\n            type_is_scalar_common(operation_id, name, &subs[0], dependencies, type_check).is_ok()\n        }\n')],
+     "why": 'behaviour-preserving: the match guard `if subs.len() == 1` written as `if subs.len() != 1 { return false }` inside the arm'},
+    {"name": 'benign-single-alternative-slice-pattern', "kind": "benign",
+     "edits": [(TU, '        } if subs.len() == 1 => type_is_scalar_common(\n            operation_id,\n            name,\n            subs.first().unwrap(),\n            dependencies,\n            type_check,\n        )\n        .is_ok(),\n', '        } => match subs.as_slice() {\n            [only] => type_is_scalar_common(operation_id, name, only, dependencies, type_check).is_ok(),\n            _ => false,\n        },\n')],
+     "why": 'behaviour-preserving: `len() == 1` + first().unwrap() written as the slice pattern `[only]`'},
+    {"name": 'benign-oneof-as-loop', "kind": "benign",
+     "edits": [(TU, '        } => subs.iter().all(|schema| {\n            type_is_scalar_common(\n                operation_id,\n                name,\n                schema,\n                dependencies,\n                type_check,\n            )\n            .is_ok()\n        }),\n', '        } => {\n            for schema in subs {\n                if type_is_scalar_common(operation_id, name, schema, dependencies, type_check).is_err() {\n                    return false;\n                }\n            }\n            true\n        }\n')],
+     "why": 'behaviour-preserving: Iterator::all written as a for loop that returns false at the first failing alternative'},
+    {"name": 'benign-single-alternative-flag-and', "kind": "benign",
+     "edits": [(TU, '        } if subs.len() == 1 => type_is_scalar_common(\n            operation_id,\n            name,\n            subs.first().unwrap(),\n            dependencies,\n            type_check,\n        )\n        .is_ok(),\n', '        } => {\n            let single = subs.len() == 1;\n            single && type_is_scalar_common(operation_id, name, &subs[0], dependencies, type_check).is_ok()\n        }\n')],
+     "why": 'behaviour-preserving: the guard bound to a named flag and combined with &&'},
     {"name": "benign-panic-in-helper", "kind": "benign",
      "edits": [(RT, _CONTAINS_PANIC, "    if varnames.contains(new_varname) {\n        duplicate_variable(path, new_varname);\n    }\n"),
                (RT, "/// Insert a variable into the set after checking for duplicates.",
